@@ -102,6 +102,22 @@ def run_v_unit(path, sc, S, outdir, prop, tier, seed, baseline):
     an = verusrun.analyse(u, res)
     info["smt_s"] = an.get("smt_ms", 0) / 1000.0
     if an["unit_error"]:
+        # a rejection that lies inside extracted functions only: set those aside, decide the rest
+        aside = verusrun.isolate_rejected(u, an)
+        if aside:
+            try:
+                res = verusrun.run_verus(u, outdir + "-isolated", extra_args=extra, seed=(seed if tier == "thorough" and seed else None))
+                an2 = verusrun.analyse(u, res)
+            except Undecided:
+                an2 = None
+            if an2 is not None and not an2["unit_error"]:
+                info["wall_s"] += res["wall"]
+                info["smt_s"] += an2.get("smt_ms", 0) / 1000.0
+                an = an2
+                for ob, why in aside.items():
+                    u.skipped[ob] = why
+                    an["obligations"].pop(ob, None)
+    if an["unit_error"]:
         return [Result(f"{name}/*", "V", "undecided", "verus rejected the unit: " + an["unit_error"][:600] + ("; skipped before: " + "; ".join(f"{k}: {v}" for k, v in u.skipped.items()) if u.skipped else ""))], info
     # which obligations serve this property
     fn_props = {}
